@@ -441,6 +441,18 @@ def run(P, R, tier):
                 meas.append(m2[1])
     common.decorated_methods(P, R, 'C14.c', meas)
     common.forward(P, R, 'C13', ['C13.i'], 'C14.b', 'per-element reductions over offset segments (reduceat) repair the rows of elements without vertices', floor=0)
+    # (S16) `pa.array(..., from_pandas=True)` turns NaN into null at EVERY nesting level: a NaN vertex inside a line becomes a null slot whose value is 0.0 in the
+    # coordinate buffer, and the measure kernels (which read the raw buffer) route the line through the origin instead of breaking it at the NaN vertex
+    R.assume('S16: pyarrow from_pandas=True converts NaN to null at every nesting level of the input')
+    for f_ in P.all_funcs():
+        if not f_.mod.name.startswith(geom.G) or isinstance(f_.node, ast.Lambda):
+            continue
+        for c_ in astq.own_calls(f_):
+            fp = astq.arg_of(c_, kw='from_pandas')
+            if fp is not None and norm(c_.func).split('.')[-1] in ('array', 'chunked_array', 'Array'):
+                R.check(isinstance(fp, ast.Constant) and fp.value is False, 'C14.a', f_, c_, 'coordinates reach arrow as they are (NaN stays a NaN coordinate)',
+                        f'`{norm(c_)[:70]}` builds the arrow data with from_pandas=True: NaN coordinates inside an element become nulls holding 0.0, so a line with a NaN vertex passes through '
+                        'the origin for length / area instead of being broken there', construct=f'{f_.qualname}: from_pandas')
     common.forward(P, R, 'C16', ['C16.d'], 'C14.b', 'the missing mask of a derived array is read from its own validity bitmap (no cached mask of the source is carried over)', floor=5)
     common.forward(P, R, 'C16', ['C16.a'], 'C14.b', 'the missing mask the map kernels receive is the validity bitmap read for exactly the window of the array', floor=2)
     common.forward(P, R, 'C16', ['C16.g'], 'C14.c', 'the scalar an array hands out (indexing or iterating) measures like the array row: it is built from the element\'s own values and dtype', floor=1)
